@@ -2144,6 +2144,9 @@ class GtkDocCommentBlockParser(object):
                 parsed_annotations = GtkDocAnnotations(position=position)
             else:
                 parsed_annotations = annotations.copy()
+                if parsed_annotations.position is None:
+                    # nothing was annotated on the part's own line
+                    parsed_annotations.position = position
         else:
             parsed_annotations = []
 
